@@ -271,13 +271,15 @@ Definition whole_text (t : wtext) : str :=
   end.
 
 (* wrap_plain: when converting the abbreviation did not consume the text (no implicit repeater, no `$#`),
-   the whole text -- joined and stripped as the code does -- goes once into the deepest last element *)
+   the whole text -- joined and stripped as the code does -- goes once into the deepest last element
+   ([insert_wrap] = insert_text, followed by insert_href when that element is an `a` and markup.href is on;
+   proofs/HrefProofs.v: insert_wrap changes the value exactly as insert_text does, and the attributes only) *)
 Theorem wrap_plain env mr root children st :
   ce_text env <> WNone ->
   conv_list env root
     (mkCst false (match mr with Some m => Z.of_N m | None => 1000000%Z end) [] false) = Ok (children, st) ->
   cs_text_inserted st = false ->
-  convert env mr root = Ok (on_last_deepest (fun n => insert_text n (whole_text (ce_text env))) children).
+  convert env mr root = Ok (on_last_deepest (fun n => insert_wrap env n (whole_text (ce_text env))) children).
 Proof.
   intros Ht Hc Hi. unfold convert. rewrite Hc. cbn [bind]. rewrite Hi.
   destruct (ce_text env); [congruence|reflexivity|reflexivity].
